@@ -42,3 +42,5 @@ D["C04"] = dict(text="mnemonic_from_entropy: for the five sizes every word is th
                 technique="deductive: bit-string abstraction + per-word LIA obligations; exhaustive constant check of the word list")
 D["C05"] = dict(text="five address kinds = spec encodings of the standard scripts (templates 0014/0020/a914..87/76a914..88ac, 1-of-1 witness script) for both networks; script builders; HASH160 = RIPEMD160(SHA256); pure-Python RIPEMD-160 proved against a generative spec: rol/f for any integer, all 80 rounds for every state (low-bits mode), feed-forward, padding for EVERY length < 2^61, block folds by loop invariants.",
                 technique="deductive: low-bits bit-vector VCs per round + LIA/sequence padding VC + loop invariants")
+D["C08"] = dict(text="module state: bip39.random is a SystemRandom bound once and never rebound (AST + live object); mnemonic_from_entropy_bits / new_wallet / from_entropy_bits draw exactly once, ENT = 32N/3 bits, full range [0, 2^ENT), from that object, and every word of the mnemonic encodes the drawn integer; invalid sizes draw nothing; package-wide scan: no other randomness/clock source. The distributional clauses are reduced to assumption R1 (stated, not proved).",
+                technique="deductive: effect-recording model of the RNG call + data-flow postcondition; AST scans for module state")
